@@ -25,8 +25,8 @@ from pathlib import Path
 from typing import Any, Callable, Dict, Iterable, List, Optional
 
 ROOT = Path(__file__).resolve().parent.parent
-EVIDENCE_DIR = ROOT / "evidence"
-REPLAY_DIR = ROOT / "replays"
+EVIDENCE_DIR = Path(os.environ.get("VERIF_EVIDENCE_DIR") or ROOT / "evidence")
+REPLAY_DIR = Path(os.environ.get("VERIF_REPLAY_DIR") or ROOT / "replays")
 WORK_DIR = ROOT / ".work"
 KNOWN_FILE = ROOT / "known_findings.json"
 
@@ -229,7 +229,7 @@ class Monitor:
 
         replay_paths: List[str] = []
         if n_viol:
-            REPLAY_DIR.mkdir(exist_ok=True)
+            REPLAY_DIR.mkdir(parents=True, exist_ok=True)
             seen = set()
             for f in violations:
                 k = f.key or f.point
@@ -275,7 +275,7 @@ class Monitor:
             "property_id": self.pid, "tier": self.tier, "seed": int(self.seed), "level": level,
             "coverage": cov, "assumptions": assumptions, "wall_s": round(wall, 3), "violations": int(n_viol),
         }
-        EVIDENCE_DIR.mkdir(exist_ok=True)
+        EVIDENCE_DIR.mkdir(parents=True, exist_ok=True)
         tmp = EVIDENCE_DIR / f".{self.pid}.{os.getpid()}.tmp"
         tmp.write_text(json.dumps(ev, indent=1, default=repr))
         os.replace(tmp, EVIDENCE_DIR / f"{self.pid}.json")
